@@ -82,7 +82,7 @@ def generate(seed, tier="quick"):
             p = {"at": pos, "how": o.choice(["pickle", "deepcopy"]), "cont": cont, "run_before": o.choice([None, None, "eager", "jit", "jit"])}
             if cont == "both":
                 dw2 = DryWorld.__new__(DryWorld)
-                dw2.__dict__.update({"shape": shape, "m": None, "ref": dw.ref.clone(), "violations": [], "stats": {}, "stopped": None, "op_index": None})
+                dw2.__dict__.update({"shape": shape, "m": None, "ref": dw.ref.clone(), "violations": [], "stats": {}, "stopped": None, "op_index": None, "handles": {}, "epoch": 0, "io_epoch": 0})
                 p["tail"] = gen_tail(stream(seed, f"tail{pos}"), dw2, swarm(stream(seed, f"tailw{pos}")), cfg, o.randint(2, 6))
             persists.append(p)
         if k < nops:
@@ -202,7 +202,8 @@ def run_ops(w, ops, start=0):
 
 def fork(w, m):
     w2 = World.__new__(World)
-    w2.__dict__.update({"shape": w.shape, "m": m, "ref": w.ref.clone(), "violations": [], "stats": {}, "chain": snap.Chain(), "stopped": None, "sim_ms": 0.0})
+    w2.__dict__.update({"shape": w.shape, "m": m, "ref": w.ref.clone(), "violations": [], "stats": {}, "chain": snap.Chain(), "stopped": None, "sim_ms": 0.0,
+                        "handles": {}, "epoch": 0, "io_epoch": 0})
     return w2
 
 
